@@ -13,16 +13,12 @@ import (
 	"time"
 
 	"github.com/dapr/kit/concurrency/dir"
-	"github.com/dapr/kit/logger"
 
 	"verif/harness/common"
+	"verif/harness/stublog"
 	"verif/simos"
 	"verif/simrt"
 )
-
-type stubLog struct{ logger.Logger }
-
-func (stubLog) Infof(format string, args ...interface{}) {}
 
 var fileSets = []map[string][]byte{
 	{},
@@ -166,7 +162,7 @@ func body(s *simrt.Sim, tier string) {
 			s.Fail("target-partial-or-mixed", fmt.Sprintf("%s: target holds {%s}, the last published Write had {%s}\n%s", where, render(got), render(fileSets[sets[current]]), strings.Join(log, "\n")))
 		}
 	}
-	d := dir.New(dir.Options{Log: stubLog{}, Target: target})
+	d := dir.New(dir.Options{Log: stublog.Log{}, Target: target})
 	faultsLeft := 0
 	if faultWrite >= 0 {
 		faultsLeft = 1
@@ -223,7 +219,7 @@ func body(s *simrt.Sim, tier string) {
 			// after a crash only the disk survives; after a mere error return the caller may equally
 			// well carry on with the same Dir (decided by the tape)
 			if crashed || s.Choose(2, "freshAfterError") == 0 {
-				d = dir.New(dir.Options{Log: stubLog{}, Target: target})
+				d = dir.New(dir.Options{Log: stublog.Log{}, Target: target})
 				freshInstance = true
 			}
 			continue
@@ -263,7 +259,7 @@ func body(s *simrt.Sim, tier string) {
 	if anyFault {
 		// recovery: a fresh Dir on the same target must be able to write
 		s.Sleep(time.Nanosecond)
-		d = dir.New(dir.Options{Log: stubLog{}, Target: target})
+		d = dir.New(dir.Options{Log: stublog.Log{}, Target: target})
 		pending := len(sets)
 		sets = append(sets, s.Choose(len(fileSets), "recoverset"))
 		h := &hook{s: s, faultStep: -1, check: check, renamed: func() { current = pending }}
